@@ -126,10 +126,16 @@ func runSolver(cfg solverCfg, file string, timeout time.Duration, seed int) (str
 	_ = cmd.Run()
 	el := time.Since(start)
 	text := out.String()
-	first := strings.TrimSpace(strings.SplitN(text, "\n", 2)[0])
-	switch first {
-	case "unsat", "sat", "unknown":
-		return first, text, el
+	for _, ln := range strings.Split(text, "\n") {
+		ln = strings.TrimSpace(ln)
+		if ln == "" || strings.HasPrefix(ln, "WARNING") {
+			continue
+		}
+		switch ln {
+		case "unsat", "sat", "unknown":
+			return ln, text, el
+		}
+		break // anything else before the verdict (an error) is fatal
 	}
 	if ctx.Err() != nil || strings.Contains(text, "timeout") || strings.Contains(text, "interrupted") {
 		return "timeout", text, el
@@ -188,40 +194,193 @@ func (V *Verifier) solveOne(o *Obligation, opt solveOpts) {
 		o.Result, o.Output = "error", err.Error()
 		return
 	}
-	var cfgs []solverCfg
-	if quant {
-		cfgs = []solverCfg{cfgCvc5Enum, cfgZ3NewNoA, cfgZ3Old, cfgCvc5, cfgZ3NewEuf, cfgZ3New}
-	} else {
-		cfgs = []solverCfg{cfgZ3New, cfgCvc5, cfgZ3Old}
-	}
 	start := time.Now()
 	var outs []string
-	// escalating time slices: a quick pass over all configurations, then the full timeout
-	slices := []time.Duration{opt.timeout / 8, opt.timeout}
-	if slices[0] < 500*time.Millisecond {
-		slices[0] = 500 * time.Millisecond
+	finish := func(res, solver, out string) {
+		o.Result, o.Solver, o.Output = res, solver, out
+		o.Ms = time.Since(start).Milliseconds()
+		if res == "unsat" && !o.Cover {
+			os.Remove(file)
+		}
 	}
-	for _, tl := range slices {
+	// try runs one derived (sound-for-unsat) variant of the query; only unsat counts.
+	try := func(tag, vtext string, cfgs []solverCfg, tl time.Duration) bool {
+		vfile := strings.TrimSuffix(file, ".smt2") + "." + tag + ".smt2"
+		if err := os.WriteFile(vfile, []byte(vtext), 0o644); err != nil {
+			return false
+		}
+		defer os.Remove(vfile)
 		for _, cfg := range cfgs {
-			res, out, _ := runSolver(cfg, file, tl, opt.seed)
-			outs = append(outs, fmt.Sprintf("[%s %v] %s", cfg.name, tl, firstLines(out, 6)))
+			res, out, _ := runSolver(cfg, vfile, tl, opt.seed)
+			outs = append(outs, fmt.Sprintf("[%s %s %v] %s", tag, cfg.name, tl, firstLines(out, 3)))
+			if res == "unsat" {
+				finish("unsat", cfg.name+"["+tag+"]", out)
+				return true
+			}
+		}
+		return false
+	}
+	short := opt.timeout / 4
+	if short < time.Second {
+		short = time.Second
+	}
+	if o.Cover {
+		for _, cfg := range []solverCfg{cfgZ3New, cfgCvc5} {
+			res, out, _ := runSolver(cfg, file, opt.timeout, opt.seed)
 			if res == "sat" || res == "unsat" {
-				o.Result, o.Solver, o.Output = res, cfg.name, out
-				o.Ms = time.Since(start).Milliseconds()
-				if res == "unsat" && !o.Cover {
-					os.Remove(file)
-				}
+				finish(res, cfg.name, out)
+				return
+			}
+		}
+		finish("unknown", "portfolio", "")
+		return
+	}
+	if !quant {
+		// quantifier-free: the bit-vector query decides (sat = counterexample)
+		for _, cfg := range []solverCfg{cfgZ3New, cfgCvc5} {
+			res, out, _ := runSolver(cfg, file, short, opt.seed)
+			outs = append(outs, fmt.Sprintf("[%s %v] %s", cfg.name, short, firstLines(out, 3)))
+			if res == "sat" || res == "unsat" {
+				finish(res, cfg.name, out)
 				return
 			}
 			if res == "error" {
-				o.Output = out
+				finish("error", cfg.name, out)
+				return
+			}
+		}
+		if it, err := toIntRendering(text); err == nil {
+			if try("int", it, []solverCfg{cfgZ3New, cfgCvc5}, opt.timeout) {
+				return
+			}
+		} else {
+			outs = append(outs, "[int] "+err.Error())
+		}
+		for _, cfg := range []solverCfg{cfgZ3New, cfgCvc5, cfgZ3Old} {
+			res, out, _ := runSolver(cfg, file, opt.timeout, opt.seed)
+			outs = append(outs, fmt.Sprintf("[%s %v] %s", cfg.name, opt.timeout, firstLines(out, 3)))
+			if res == "sat" || res == "unsat" {
+				finish(res, cfg.name, out)
+				return
+			}
+		}
+		finish("unknown", "portfolio", strings.Join(outs, "\n"))
+		return
+	}
+	// quantified context. 1: without any quantified hypothesis (sound: fewer hypotheses)
+	var keep []string
+	for _, ln := range strings.Split(text, "\n") {
+		if strings.HasPrefix(ln, "(assert") && (strings.Contains(ln, "(forall ") || strings.Contains(ln, "(exists ")) && !strings.HasPrefix(ln, "(assert (not ") {
+			continue
+		}
+		if strings.HasPrefix(ln, "(get-value") {
+			continue
+		}
+		keep = append(keep, ln)
+	}
+	qf := strings.Join(keep, "\n")
+	if !strings.Contains(qf[len(preamble):], "(forall ") && !strings.Contains(qf[len(preamble):], "(exists ") && !strings.Contains(qf, "define-fun-rec") {
+		if try("qf", qf, []solverCfg{cfgZ3New}, short) {
+			return
+		}
+		if it, err := toIntRendering(qf); err == nil {
+			if try("qf-int", it, []solverCfg{cfgZ3New}, short) {
+				return
+			}
+		} else {
+			outs = append(outs, "[qf-int] "+err.Error())
+		}
+	}
+	// 2: goal-directed instantiation (instantiate.go), bit-vector and integer renderings
+	var lastInst string
+	var lastSplits []string
+	for _, maxq := range []int{4, 12} {
+		inst, n, splits := instantiateObligation2(text, maxq)
+		if inst == "" {
+			break
+		}
+		lastInst, lastSplits = inst, splits
+		tag := fmt.Sprintf("inst%d:%d", maxq, n)
+		if it, err := toIntRendering(inst); err == nil {
+			if try(tag+"-int", it, []solverCfg{cfgZ3New, cfgCvc5}, opt.timeout) {
+				return
+			}
+		} else {
+			outs = append(outs, "["+tag+"-int] "+err.Error())
+		}
+		if try(tag, inst, []solverCfg{cfgZ3New, cfgCvc5}, short) {
+			return
+		}
+	}
+	// 2b: case split on the guards of the instances at the skolem constants: each case is
+	// solved separately (all must be unsat), which lets preprocessing specialise the query
+	if lastInst != "" && len(lastSplits) > 0 {
+		if len(lastSplits) > 3 {
+			lastSplits = lastSplits[:3]
+		}
+		base := strings.Replace(lastInst, "(check-sat)", "", 1)
+		all := true
+		ncase := 1 << uint(len(lastSplits))
+		for c := 0; c < ncase && all; c++ {
+			var lits []string
+			for i, a := range lastSplits {
+				if c&(1<<uint(i)) != 0 {
+					lits = append(lits, "(assert "+a+")")
+				} else {
+					lits = append(lits, "(assert (not "+a+"))")
+				}
+			}
+			ctext := base + strings.Join(lits, "\n") + "\n(check-sat)\n"
+			okc := false
+			if it, err := toIntRendering(ctext); err == nil {
+				saved := *o
+				if try(fmt.Sprintf("case%d-int", c), it, []solverCfg{cfgZ3New, cfgCvc5}, opt.timeout) {
+					okc = true
+				}
+				if okc {
+					*o = saved
+				}
+			}
+			if !okc {
+				saved := *o
+				if try(fmt.Sprintf("case%d", c), ctext, []solverCfg{cfgZ3New, cfgCvc5}, opt.timeout) {
+					okc = true
+					*o = saved
+				}
+			}
+			if !okc {
+				all = false
+			}
+		}
+		if all {
+			finish("unsat", fmt.Sprintf("z3-new/cvc5[inst+%d-way case split]", ncase), "")
+			return
+		}
+	}
+	// 3: the full quantified query
+	cfgs := []solverCfg{cfgCvc5Enum, cfgZ3NewNoA, cfgZ3Old, cfgCvc5, cfgZ3NewEuf, cfgZ3New}
+	for _, tl := range []time.Duration{short, opt.timeout} {
+		for _, cfg := range cfgs {
+			res, out, _ := runSolver(cfg, file, tl, opt.seed)
+			outs = append(outs, fmt.Sprintf("[%s %v] %s", cfg.name, tl, firstLines(out, 3)))
+			if res == "sat" || res == "unsat" {
+				finish(res, cfg.name, out)
+				return
+			}
+			if res == "error" {
+				finish("error", cfg.name, out)
+				return
+			}
+		}
+		if tl == short {
+			if it, err := toIntRendering(text); err == nil {
+				if try("full-int", it, []solverCfg{cfgZ3New, cfgZ3NewNoA}, opt.timeout) {
+					return
+				}
 			}
 		}
 	}
-	o.Result = "unknown"
-	o.Solver = "portfolio"
-	o.Output = strings.Join(outs, "\n")
-	o.Ms = time.Since(start).Milliseconds()
+	finish("unknown", "portfolio", strings.Join(outs, "\n"))
 }
 
 func firstLines(s string, n int) string {
